@@ -704,6 +704,16 @@ func (fx *FuncExec) evalSpecCall(env *SpecEnv, x *ast.CallExpr) Val {
 		return bv(fmt.Sprintf("(and (= (str.len %s) (str.len %s)) (forall ((i Int)) (=> (and (<= 0 i) (< i (str.len %s))) (= (str.at %s i) (str.at %s i)))))", a.S, b.S, a.S, a.S, b.S))
 	case "int", "byte", "rune", "int64", "uint32", "uint64", "uint":
 		return fx.evalSpec(env, x.Args[0])
+	case "any":
+		// any(x): x boxed into an interface value with its static type
+		v := fx.evalSpec(env, x.Args[0])
+		if v.Sort == SIface {
+			return v
+		}
+		if v.T == nil {
+			fx.specFail(env, "any() of untyped value")
+		}
+		return Val{T: types.NewInterfaceType(nil, nil), Sort: SIface, S: fmt.Sprintf("(mkIface %d %s)", fx.em.Tag(v.T), fx.em.Box(v))}
 	case "bit":
 		// bit(x, MASK): (x & MASK) != 0 for bitvector-encoded flags
 		a, m := fx.evalSpec(env, x.Args[0]), fx.evalSpec(env, x.Args[1])
